@@ -195,8 +195,11 @@ func verifC10One(nFilters, maxPat, nTags, nStatic int, allowRegex bool) {
 			MatchTags: verifToList(fs.matchTags), DropTags: verifToList(fs.dropTags), DropMetric: fs.dropMetric, DropHost: fs.dropHost})
 	}
 	var static []string
+	ns := nondetIntIn(0, nStatic) // 0..nStatic static tags
 	for i := 0; i < nStatic; i++ {
-		static = append(static, nondetString(1))
+		if i < ns {
+			static = append(static, nondetString(1))
+		}
 	}
 	// the static list is de-duplicated by the constructor: hand it a copy
 	rec := &verifRecorder{}
